@@ -25,6 +25,14 @@ check('C04', 'exhaustive enumeration + rapidcheck, round-trip through the ISA pr
       '(the encoder path does not depend on the mnemonic); the full 12x product is behind VERIF_C04_FULL=1.',
       'DESIGN.md 6 C04')
 
+check('C02', 'rapidcheck lock-step differential against an independent ISA reference model (byte grid, sequences, toolchain images)',
+      'hexsim::Processor is single-stepped (HEX_VERIF observer) next to refisa, a reference written from hexb.pdf: all 256 instruction bytes x '
+      'generated states with effective addresses steered into range, generated instruction sequences through the real loader, and the shipped '
+      'programs; registers, stored word, I/O and input position compared after every step, whole memory and simout files per case.',
+      'Trusted: refisa (hexb.pdf transcription; selftest reproduces tests/asm outputs). Harness zeroes hexsim memory (C12 owns initialisation). '
+      'Exploration: absence is not shown.',
+      'DESIGN.md 6 C02')
+
 NOT_YET = {}
 
 def main():
